@@ -672,6 +672,25 @@ func (fc *FaultClient) CutAll() {
 	}
 }
 
+// Isolate refuses new streams and closes the live ones until none is left (a
+// connection attempt that was already under way when Refuse was set can still
+// produce a stream after the first cut).
+func (fc *FaultClient) Isolate() {
+	fc.Refuse(true)
+	for quiet := 0; quiet < 3; {
+		fc.CutAll()
+		fc.mu.Lock()
+		n := len(fc.streams)
+		fc.mu.Unlock()
+		if n == 0 {
+			quiet++
+		} else {
+			quiet = 0
+		}
+		time.Sleep(300 * time.Microsecond)
+	}
+}
+
 // Pause blocks stream reads (the replica lags) until Resume.
 func (fc *FaultClient) Pause() { fc.mu.Lock(); fc.paused = true; fc.mu.Unlock() }
 
